@@ -256,7 +256,8 @@ Fixpoint gser (x : sval) (st : gstate) {struct x} : res cerr gstate :=
       let* st := match key_offset with
                  | Some ko =>
                      let entry_size := g_written st - (match key_start with Some s => s | None => 0 end) in
-                     let* w := for_encoded_container entry_size in
+                     (* the entry holds entry_size bytes plus the one framing offset written here (commit c613b0b9) *)
+                     let* w := for_bare_container entry_size 1 in
                      Ok (gwr st (offset_bytes w ko))
                  | None => Ok st
                  end in
